@@ -37,23 +37,28 @@ def preflight():
     return out
 
 
-def _l1_context(w0: int, w1: int, w2: int, pos: int, g: bool, obs: int, pad: int) -> bool:
+def _l1_context(w0: int, w1: int, w2: int, pos: int, g: bool, obs: int, pad: int, lc: int) -> bool:
     """
     pre: 0 <= w0 <= 4 and 0 <= w1 <= 4 and 0 <= w2 <= 4
     pre: 0 <= pos <= 2
     pre: 0 <= obs <= 4
     pre: 0 <= pad <= 1
+    pre: 0 <= lc <= 7
     post: _
     """
-    # contig = [pad * 'AT'] + 3 symbolic letters + [pad * 'AT']: without padding every truncation at both contig ends occurs
+    # contig = [pad * 'AT'] + 3 symbolic letters + [pad * 'AT']: without padding every truncation at both contig ends occurs.
+    # lc: which of the three letters are soft-masked (lower case) in the reference file; the context is case-insensitive
     core = pick(B, w0) + pick(B, w1) + pick(B, w2)
+    mask = pick(list(range(8)), lc)
+    core_file = ''.join((ch.lower() if (mask >> i) & 1 else ch) for i, ch in enumerate(core))
     ref = ('AT' if pad else '') + core + ('AT' if pad else '')
+    ref_file = ('AT' if pad else '') + core_file + ('at' if pad else '')
     p = pos + (2 if pad else 0)
     ref_base = 'G' if g else 'C'
     if ref[p] != ref_base:
         return True
     observed = pick(B, obs)
-    ctx, sym = TAPS_OBJ.position_to_context('chr1', p, ref_base, observed_base=observed, strand=g, reference=FakeFasta({'chr1': ref}))
+    ctx, sym = TAPS_OBJ.position_to_context('chr1', p, ref_base, observed_base=observed, strand=g, reference=FakeFasta({'chr1': ref_file}))
     return sym == S.letter(ref, p, ref_base, observed)
 
 
@@ -181,7 +186,7 @@ def _l3_dove(off: int, c_in: bool, c_out: bool, conv_in: bool, conv_out: bool, u
 _T = {'quick': 200, 'thorough': 900}
 LEMMAS = [
     dict(name='L1_context_letter', fn='_l1_context', engine='E1', timeout=_T, replay='replay.C14:replay',
-         cases={'quick': [dict(id='pos%d_%s_pad%d' % (p, 'G' if g else 'C', pad), pre=['pos == %d' % p, 'g == %s' % bool(g), 'pad == %d' % pad]) for p in (0, 1, 2) for g in (0, 1) for pad in (0, 1)]}),
+         cases={'quick': [dict(id='pos%d_%s_pad%d_lc%d' % (p, 'G' if g else 'C', pad, h), pre=['pos == %d' % p, 'g == %s' % bool(g), 'pad == %d' % pad, ('lc <= 3' if h == 0 else 'lc >= 4')]) for p in (0, 1, 2) for g in (0, 1) for pad in (0, 1) for h in (0, 1)]}),
     dict(name='L2_calls_and_tags', fn='_l2_calls', engine='E1', timeout=_T, replay='replay.C14:replay',
          cases={'quick': [dict(id='w%d_%s_%s' % (w, 'rev' if r else 'fwd', 'two' if t else 'one'), pre=['w0 == %d' % w, 'rev == %s' % bool(r), 'two == %s' % bool(t)] + ([] if t else ['mask2 == 0']))
                           for w in range(4) for r in (0, 1) for t in (0,)] +
@@ -198,7 +203,7 @@ PROPERTY = dict(
                 calls='4-letter contig over ACGT (+N at the end), one read (all 16 conversion patterns) or two reads (8x8 patterns), both strands, tags XM / MC / uC / sZ sz sX sx sH sh',
                 dove='one dove-tailed pair, candidate C inside / outside the mate-overlap-safe span, allow_unsafe_base_calls on/off'),
     outside=['taps_strand R (mirror of F by construction of expected_base_to_be_converted)', 'classifier-based consensus', 'reference variants', 'colour tag YC'],
-    assumptions=['FakeFasta fetch contract (validated against pysam.FastaFile at preflight)', 'FakeRead.get_aligned_pairs(with_seq=True) returns the reference base (MD semantics)',
+    assumptions=['reference letters may be soft-masked (lower case) in the FASTA; the context is case-insensitive', 'FakeFasta fetch contract (validated against pysam.FastaFile at preflight)', 'FakeRead.get_aligned_pairs(with_seq=True) returns the reference base (MD semantics)',
                  'a context whose first two bases are CG is a CpG context even when the third base is missing (contig end) or N'],
     trusted=['stubs/fakefasta.py', 'stubs/fakeread.py', 'spec/c14.py'],
 )
